@@ -184,6 +184,33 @@ def r_codec_config(ck: Checker) -> None:
     ck.holds("R-FMT-PAIR", ("src/pyoak", "*"), None, what)
 
 
+def r_one_source_table(ck: Checker) -> None:
+    """One registry for all sources: `clear_registry` rebinds the tables on the class it is called through (`cls._sources = {}`), so a
+    table reached through `self` / `cls` is the table of whichever subclass last cleared "its" registry, while writer and reader of an
+    index must use the same one.  Positive pattern: a rebinding through `cls` exists and an access in a registering / (de)serializing method
+    goes through `self` / `cls` instead of the class that owns the tables."""
+    c = ck.repo.cls(ORIGIN, "Source")
+    T_ = ("_sources", "_source_idx_to_source")
+    rebinds = [x for st in c.node.body if isinstance(st, ast.FunctionDef) for x in ast.walk(st)
+               if isinstance(x, ast.Attribute) and isinstance(x.ctx, ast.Store) and x.attr in T_ and norm(x.value) in ("cls", "self", "type(self)", "self.__class__")]
+    n = 0
+    for st in c.node.body:
+        if not (isinstance(st, ast.FunctionDef) and st.name in ("__post_init__", "_serialize", "_deserialize", "source_registry_id", "load_serialized_sources", "all_as_dict")):
+            continue
+        for x in ast.walk(st):
+            if isinstance(x, ast.Attribute) and x.attr in T_ and isinstance(x.ctx, ast.Load):
+                n += 1
+                what = f"Source.{st.name}: the source tables are the ones owned by Source itself, whichever subclass the call comes through"
+                if rebinds and norm(x.value) in ("cls", "self", "type(self)", "self.__class__"):
+                    ck.violation("R-IDX-PAIR", (c.mod.rel, f"Source.{st.name}"), x, what, positive=True,
+                                 construct=f"Source.{st.name}: {norm(x)} — clear_registry rebinds `{norm(rebinds[0])}` on the class it is called through; after SubSource.clear_registry() "
+                                 "instances of that subclass register in and are resolved from a table of their own")
+                    return
+                ck.holds("R-IDX-PAIR", (c.mod.rel, f"Source.{st.name}"), x, what)
+    if n < 4:
+        ck.incomplete("R-IDX-PAIR", None, None, f"only {n} accesses of the source tables found (>= 4 confirmed by hand)")
+
+
 def r_index_live(ck: Checker) -> None:
     """The registry index of a source is looked up when it is needed: the registry can be cleared and refilled in another order."""
     what = "a source's registry index is read from the registry at the time of use (never remembered on the source)"
@@ -410,6 +437,75 @@ def r_idx_pair(ck: Checker) -> None:
     (ck.holds if not bad_ else ck.violation)("R-IDX-PAIR", d, d.node, what, **({"evaluations": len(dl)} if not bad_ else {"construct": f"Source._deserialize: {bad_}"}))
 
 
+def r_payload_readonly(ck: Checker) -> None:
+    """The mapping handed to a deserialization hook is the caller's object (as_obj passes it on; mashumaro passes nested mappings of it):
+    a hook that pops / deletes / stores keys of it changes what a second read of the same payload sees (positive pattern)."""
+    EDITS = ("pop", "popitem", "clear", "update", "setdefault", "__delitem__", "__setitem__")
+    n = 0
+    for modname in ("pyoak.serialize", "pyoak.node", "pyoak.origin"):
+        m_ = ck.repo.mod(modname)
+        for fn in [x for x in ast.walk(m_.tree) if isinstance(x, ast.FunctionDef) and x.name in ("_deserialize", "as_obj", "__pre_deserialize__", "from_json", "from_msgpck", "from_yaml")]:
+            ps = [a.arg for a in fn.args.args if a.arg not in ("self", "cls")]
+            if not ps:
+                continue
+            p_ = ps[0]
+            n += 1
+            aliases = {p_} | {st.targets[0].id for st in ast.walk(fn) if isinstance(st, ast.Assign) and len(st.targets) == 1 and isinstance(st.targets[0], ast.Name)
+                              and isinstance(st.value, ast.Name) and st.value.id == p_}
+            edits = [c for c in ast.walk(fn) if (isinstance(c, ast.Call) and isinstance(c.func, ast.Attribute) and c.func.attr in EDITS and norm(c.func.value) in aliases)
+                     or (isinstance(c, ast.Subscript) and isinstance(c.ctx, (ast.Store, ast.Del)) and norm(c.value) in aliases)]
+            rebound = any(isinstance(st, ast.Assign) and any(isinstance(t_, ast.Name) and t_.id == p_ for t_ in st.targets) for st in ast.walk(fn))
+            what = f"{fn.name} ({modname}) reads the payload it is given and does not edit it (the caller may read the same payload again)"
+            if edits and not rebound:
+                ck.violation("R-DESER-ID", (m_.rel, fn.name), edits[0], what, positive=True,
+                             construct=f"{fn.name}: {norm(edits[0])[:50]} edits the caller's payload in place — reading the same payload a second time sees different data")
+            elif edits:
+                raise Unsupported(f"{fn.name}: the payload parameter is rebound and edited", fn)
+            else:
+                ck.holds("R-DESER-ID", (m_.rel, fn.name), fn, what)
+    if n < 4:
+        ck.incomplete("R-DESER-ID", None, None, f"only {n} deserialization hooks found (>= 4 confirmed by hand)")
+
+
+def r_no_serialized_memo(ck: Checker, rule: str = "R-FMT-PAIR") -> None:
+    """What a serialization hook returns depends on the options of the call in progress (skip class, sort keys, source optimisation, dialect).
+    A hook that keeps its result in a table that outlives the call hands the form made for one set of options to the next call
+    (positive pattern: a store into a module-level / class-level table inside a _serialize / __post_serialize__ hook)."""
+    from .state_rules import _mutable_container
+    n = 0
+    for modname in ("pyoak.serialize", "pyoak.node", "pyoak.origin"):
+        m_ = ck.repo.mod(modname)
+        tables: set[str] = set()
+        for st in ast.walk(m_.tree):
+            if isinstance(st, (ast.Assign, ast.AnnAssign)):
+                tg = st.targets[0] if isinstance(st, ast.Assign) and len(st.targets) == 1 else (st.target if isinstance(st, ast.AnnAssign) else None)
+                if isinstance(tg, ast.Name) and _mutable_container(st.value) and getattr(st, "col_offset", 1) in (0, 4):
+                    tables.add(tg.id)
+        tables -= {"TYPES", "_sources", "_source_idx_to_source", "NODE_REGISTRY"}
+        for fn in [x for x in ast.walk(m_.tree) if isinstance(x, ast.FunctionDef) and x.name in ("_serialize", "__post_serialize__")]:
+            n += 1
+            what = f"{fn.name} ({modname}) builds its result for the call in progress and keeps no copy of it in a table that outlives the call"
+            local = {t_.id for st in ast.walk(fn) if isinstance(st, ast.Assign) for t_ in st.targets if isinstance(t_, ast.Name)}
+            bad = None
+            for x in ast.walk(fn):
+                if isinstance(x, ast.Subscript) and isinstance(x.ctx, ast.Store):
+                    t_ = x.value.id if isinstance(x.value, ast.Name) and x.value.id not in local else (x.value.attr if isinstance(x.value, ast.Attribute) else None)
+                    if t_ in tables:
+                        bad = (x, t_)
+                elif isinstance(x, ast.Call) and isinstance(x.func, ast.Attribute) and x.func.attr in ("setdefault", "update"):
+                    v_ = x.func.value
+                    t_ = v_.id if isinstance(v_, ast.Name) and v_.id not in local else (v_.attr if isinstance(v_, ast.Attribute) else None)
+                    if t_ in tables:
+                        bad = (x, t_)
+            if bad:
+                ck.violation(rule, (m_.rel, fn.name), bad[0], what, positive=True,
+                             construct=f"{fn.name}: the serialized form is stored in `{bad[1]}` ({norm(bad[0])[:50]}) — a later call with other options gets the form made for this one")
+            else:
+                ck.holds(rule, (m_.rel, fn.name), fn, what)
+    if n < 3:
+        ck.incomplete(rule, None, None, f"only {n} serialization hooks found (>= 3 confirmed by hand)")
+
+
 def run(ck: Checker) -> None:
     ck.explanation = (
         "Structural clauses of the round trip: typestate of the re-created node in ASTNode._deserialize (decision tree: registry hit returned "
@@ -422,11 +518,14 @@ def run(ck: Checker) -> None:
     ck.rule_text = "one obligation per decided function / pair / placeholder class"
     ck.assumptions += ["mashumaro, orjson, msgpack and PyYAML round-trip the representable value kinds (not analysed)"]
     ck.guard("R-DESER-ID", lambda: r_deser_id(ck))
+    ck.guard("R-DESER-ID", lambda: r_payload_readonly(ck))
+    ck.guard("R-FMT-PAIR", lambda: r_no_serialized_memo(ck))
     ck.guard("R-TAG-TABLE", lambda: r_tag_table(ck))
     ck.guard("R-SINGLETON-RT", lambda: r_singleton_rt(ck))
     ck.guard("R-FMT-PAIR", lambda: r_fmt_pair(ck))
     ck.guard("R-IDX-PAIR", lambda: r_idx_pair(ck))
     ck.guard("R-IDX-PAIR", lambda: r_index_live(ck))
+    ck.guard("R-IDX-PAIR", lambda: r_one_source_table(ck))
     ck.guard("R-FMT-PAIR", lambda: r_codec_config(ck))
     # a multi-origin must come back equal: its derived source follows the members' sources by value
     from .c15 import r_multiorigin_init
